@@ -139,6 +139,7 @@ struct GenOpts
     int dur_pattern = -1; // <0 random
     int data_class = -1;  // <0 random
     bool zero_t0 = false;
+    double huge_t0_prob = 0.0; // probability of an astronomically large start time (1e9 .. 1e12): nothing but the knot times may depend on it
     double mag_cap = 1e3;
 };
 
@@ -159,6 +160,8 @@ inline Problem genProblem(Rng &r, int order, int dim, int N, const GenOpts &o = 
     int pat = o.dur_pattern >= 0 ? o.dur_pattern : r.range(0, kNumDurPatterns - 1);
     p.T = genDurations(r, N, b, Reff, pat);
     p.t0 = o.zero_t0 ? 0.0 : genStartTime(r);
+    if (!o.zero_t0 && o.huge_t0_prob > 0 && r.coin(o.huge_t0_prob))
+        p.t0 = r.pick(std::vector<double>{1e9, -1e9, 1.7e9, 1e12, -3e11, -6e10});
     int dc = o.data_class >= 0 ? o.data_class : r.range(0, kNumDataClasses - 1);
     if (pattern_out)
         *pattern_out = pat;
